@@ -808,6 +808,36 @@ def _norm_func(tree: ast.AST, name: str) -> ast.FunctionDef:
 _FLIP = {ast.Lt: ast.GtE, ast.LtE: ast.Gt, ast.Gt: ast.LtE, ast.GtE: ast.Lt, ast.Eq: ast.NotEq, ast.NotEq: ast.Eq}
 
 
+def _canon_chain(b: ast.BoolOp) -> ast.BoolOp:
+    """A conjunction of ordering tests that form a chain (`lo < p` and `p < hi`, in any order and spelling: `hi > p and
+    p > lo`) is written as the ascending chain `lo < p`, `p < hi`.  `a > b` and `b < a` are the same test (also on NaN)
+    and the operands are pure, so neither the spelling nor the order of the conjuncts matters.  Anything that is not
+    such a chain is returned unchanged (a single comparison keeps its spelling: its operands are parameters of the
+    extracted definition, in order of appearance)."""
+    if not isinstance(b.op, ast.And) or len(b.values) < 2:
+        return b
+    links = []
+    for v in b.values:
+        if not (isinstance(v, ast.Compare) and len(v.ops) == 1 and isinstance(v.ops[0], (ast.Lt, ast.LtE, ast.Gt, ast.GtE))):
+            return b
+        l, r, op = v.left, v.comparators[0], v.ops[0]
+        if isinstance(op, (ast.Gt, ast.GtE)):
+            l, r, op = r, l, (ast.Lt() if isinstance(op, ast.Gt) else ast.LtE())
+        links.append((ast.unparse(l), ast.unparse(r), ast.Compare(left=l, ops=[op], comparators=[r])))
+    rights = {x[1] for x in links}
+    starts = [x for x in links if x[0] not in rights]
+    if len(starts) != 1:
+        return b
+    order, left = [starts[0]], [x for x in links if x is not starts[0]]
+    while left:
+        nxt = [x for x in left if x[0] == order[-1][1]]
+        if len(nxt) != 1:
+            return b
+        order.append(nxt[0])
+        left.remove(nxt[0])
+    return ast.BoolOp(op=ast.And(), values=[x[2] for x in order])
+
+
 def nnf(e: ast.expr, neg: bool = False) -> ast.expr:
     """Negation normal form; chained comparisons are split into conjunctions."""
     if isinstance(e, ast.UnaryOp) and isinstance(e.op, ast.Not):
@@ -816,7 +846,7 @@ def nnf(e: ast.expr, neg: bool = False) -> ast.expr:
         op = e.op
         if neg:
             op = ast.Or() if isinstance(e.op, ast.And) else ast.And()
-        return ast.BoolOp(op=op, values=[nnf(v, neg) for v in e.values])
+        return _canon_chain(ast.BoolOp(op=op, values=[nnf(v, neg) for v in e.values]))
     if isinstance(e, ast.Compare):
         if len(e.ops) > 1:
             parts: list[ast.expr] = []
